@@ -183,7 +183,16 @@ func init() {
 				texts = append(texts, `{"value":1,"unit":"KiB"}`, `"1KiB"`, `{"value":1,"unit":"XB"}`, `{"value":1`, "12", "[1]")
 			}
 			if t.pkg == "sem" {
-				texts = append(texts, "v1.2.3-alpha.beta+build.meta", "1.2.3-x.y.z+1.2.3")
+				texts = append(texts, "v1.2.3-alpha.beta+build.meta", "1.2.3-x.y.z+1.2.3", "1.2.3-"+strings.Repeat("a", 300)+"!", strings.Repeat("1.", 200))
+			}
+			if t.pkg == "roman" {
+				texts = append(texts, strings.Repeat("M", 99)+"x", strings.Repeat("M", 64)+"?", strings.Repeat("M", 65)+"?", "?"+strings.Repeat("I", 126))
+			}
+			if t.pkg == "size" {
+				texts = append(texts, strings.Repeat("1", 19)+strings.Repeat("X", 90), strings.Repeat(" ", 100)+"1Q")
+			}
+			if t.pkg == "uu" {
+				texts = append(texts, strings.Repeat("g", 36), strings.Repeat("g", 45))
 			}
 			for xi, text := range texts {
 				if !d.Mine(ti*100 + xi) {
@@ -298,6 +307,12 @@ func init() {
 				if max == 0 && big > 400 {
 					big = lim + 300 // with the limit off the whole input is parsed: keep it moderate
 				}
+				// every seed text in full under this limit, whatever its length
+				for _, s := range p.seeds {
+					for r := 0; r < p.rules; r++ {
+						parse(p, []byte(s), r)
+					}
+				}
 				for _, n := range []int{0, 1, lim - 1, lim, lim + 1, lim + 2, big, big + 1} {
 					if n < 0 {
 						continue
@@ -355,6 +370,16 @@ func init() {
 				}
 			}
 			setMax(p, p.def)
+		}
+		// (2b) comparators on every ordered pair of degenerate identifier lists
+		if d.Shard == 0 {
+			deg := []string{"", ".", "..", "a.", ".a", "rc..1", "1.", ".1", "a..b", "-", "+", "\x00", "0", "00", "a", "1.a.", "\xff.\xff", "\u212a"}
+			for _, a := range deg {
+				for _, b := range deg {
+					d.Do(Ev{"op": "sem.cmpraw", "a": B(a), "b": B(b)})
+					d.Do(Ev{"op": "sem.htext", "a": B("1.0.0-" + a), "b": B("1.0.0-" + b)})
+				}
+			}
 		}
 		// (3) comparators, helpers, Valid, Unmarshal*/Scan on arbitrary bytes
 		for i := 0; i < nr/d.NShards; i++ {
